@@ -1,6 +1,7 @@
 package world
 
 import (
+	"context"
 	"crypto/sha256"
 	"encoding/base64"
 	"encoding/json"
@@ -220,6 +221,11 @@ type Creds struct {
 
 // PostForm sends a form to a provider endpoint with the given client credentials.
 func (w *World) PostForm(path string, form url.Values, c Creds) *Resp {
+	return w.PostFormCtx(context.Background(), path, form, c)
+}
+
+// PostFormCtx is PostForm with a caller context; its values reach the storage calls made for the request.
+func (w *World) PostFormCtx(ctx context.Context, path string, form url.Values, c Creds) *Resp {
 	f := url.Values{}
 	for k, v := range form {
 		f[k] = append([]string(nil), v...)
@@ -237,7 +243,7 @@ func (w *World) PostForm(path string, form url.Values, c Creds) *Resp {
 			f.Set("client_id", c.ID)
 		}
 	}
-	req, err := http.NewRequest("POST", w.Issuer+path, strings.NewReader(f.Encode()))
+	req, err := http.NewRequestWithContext(ctx, "POST", w.Issuer+path, strings.NewReader(f.Encode()))
 	if err != nil {
 		return &Resp{Err: err}
 	}
@@ -253,12 +259,10 @@ func (w *World) PostForm(path string, form url.Values, c Creds) *Resp {
 }
 
 func (w *World) DoRaw(req *http.Request) *Resp {
-	before := w.Net.Len()
+	h := &ExHolder{}
+	req = req.WithContext(context.WithValue(req.Context(), exHolderKey{}, h))
 	resp, err := w.Raw.Do(req)
-	var ex *Exchange
-	if xs := w.Net.Since(before); len(xs) > 0 {
-		ex = xs[0]
-	}
+	ex := h.Ex
 	if err != nil {
 		return &Resp{Err: err, Ex: ex}
 	}
